@@ -55,6 +55,8 @@ register("fstore_mon", flavors=("asan", "plain"))
 register("aio_mon", flavors=("tsan", "asan", "plain"))
 register("route_mon", flavors=("asan",))
 register("vsrv", flavors=("asan",))
+register("hdr_mon", flavors=("asan",))
+register("hdr_fuzz", src="hdr_mon.cpp", flavors=("fuzz",), defs="-DVERIF_FUZZ")
 
 
 def log(msg):
